@@ -22,6 +22,8 @@ func main() {
 		os.Exit(cmdCheck(os.Args[2:]))
 	case "dump":
 		os.Exit(cmdDump(os.Args[2:]))
+	case "replay":
+		os.Exit(cmdReplay(os.Args[2:]))
 	default:
 		fmt.Fprintln(os.Stderr, "unknown command", os.Args[1])
 		os.Exit(2)
@@ -441,4 +443,56 @@ func tagsOf(fc *FuncContract) []string {
 		}
 	}
 	return keysOf(m)
+}
+
+// cmdReplay re-presents a recorded violation: prints the obligation, clause and solver answer, and, when the record carries
+// a generated test (a counterexample that was replayed on the real code), runs that test again against -repo.
+// Exit status 1: the record describes a violation (and, if it has a test, the test still shows the recorded observations).
+func cmdReplay(args []string) int {
+	fs := flag.NewFlagSet("replay", flag.ExitOnError)
+	repo := fs.String("repo", "/repo", "")
+	file := fs.String("file", "", "replay file written by a check")
+	fs.Parse(args)
+	data, err := os.ReadFile(*file)
+	if err != nil {
+		fmt.Fprintln(os.Stderr, err)
+		return 2
+	}
+	var rec map[string]interface{}
+	if err := json.Unmarshal(data, &rec); err != nil {
+		fmt.Fprintln(os.Stderr, "not a replay file:", err)
+		return 2
+	}
+	fmt.Printf("property:   %v\nobligation: %v\nclause:     %v\nposition:   %v\nsolver:     %v (%v)\n", rec["property"], rec["obligation"], rec["clause"], rec["position"], rec["solver_result"], rec["solver"])
+	if out, ok := rec["output"].(string); ok && out != "" {
+		fmt.Printf("recorded output of the bounded stand-in:\n%s\n", out)
+	}
+	rp, _ := rec["replay"].(map[string]interface{})
+	if rp == nil {
+		fmt.Println("no counterexample was replayed for this record (no-failing-input-found):", rec["solver_detail"])
+		return 1
+	}
+	src, _ := rp["test_source"].(string)
+	pkg, _ := rp["package_dir"].(string)
+	if src == "" || pkg == "" {
+		fmt.Println("no generated test in this record:", rp["note"])
+		return 1
+	}
+	fmt.Printf("inputs:     %v\nre-running the generated test against %s/%s\n", rp["inputs"], *repo, pkg)
+	run := runOverlayTest(*repo, pkg, "zz_fvc_replay_test.go", []byte(src), "^TestFvcReplay$", nil, 3*time.Minute)
+	fmt.Println(run.Output)
+	same := true
+	if obs, ok := rp["observed"].(map[string]interface{}); ok {
+		for k, v := range obs {
+			if !strings.Contains(run.Output, fmt.Sprintf("FVC-OBS %s=%v", k, v)) {
+				same = false
+			}
+		}
+	}
+	if same && rp["confirmed"] == true {
+		fmt.Println("replay: the real code shows the recorded behaviour again (violation confirmed when it was recorded)")
+		return 1
+	}
+	fmt.Println("replay: the recorded behaviour is not reproduced on this tree")
+	return 0
 }
